@@ -57,28 +57,143 @@ def cid_replacement_only_for_retired(ctx, rule, instance):
     ctx.floor(rule, instance + '_replacement_sites', n, 1)
 
 
+def _bool_fn_false_variants(F, fn):
+    """fn is a predicate `fn(&self) -> bool` over an enum that decides by the discriminant of self alone: returns the set
+    of variant NAMES for which it returns false (None when the body has any other shape: the caller fails closed).
+    The body is EVALUATED once per variant on the CFG — switches on discr(*self) take that variant's edge, bool locals are
+    followed through constants, copies and `!` — so `!matches!(..)`, `match self { A | B => false, _ => true }`,
+    `if let` chains and early returns all agree."""
+    if fn.argc != 1:
+        return None
+    self_ty = fn.locals[1][0].lstrip('&').replace('mut ', '').strip()
+    try:
+        adt = F.adt(self_ty)
+    except Exception:
+        return None
+    if adt.get('kind') != 'enum':
+        return None
+
+    def val(env, op):
+        if op[0] == 'k':
+            return {'0': False, 'false': False, '1': True, 'true': True}.get(str(op[2]).lower())
+        if op[0] in ('c', 'm') and not op[1][1]:
+            return env.get(op[1][0])
+        return None
+
+    def run(discr):
+        env, bb = {}, 0
+        for _ in range(256):
+            for st in fn.blocks[bb]['s']:
+                if st[0] != '=':
+                    continue
+                if st[1][1]:
+                    continue                      # a store through a projection never defines a whole bool / discriminant local
+                rv = st[2]
+                if rv[0] == 'discr':
+                    v = ('discr',) if rv[1][0] == 1 and rv[1][1] in (['*'], []) else None
+                elif rv[0] == 'use':
+                    v = val(env, rv[1])
+                elif rv[0] == 'un' and rv[1] == 'Not':
+                    v = val(env, rv[2])
+                    v = (not v) if isinstance(v, bool) else None
+                else:
+                    v = None
+                env[st[1][0]] = v                 # None = unknown: fails closed only if a switch / the return reads it
+            t = fn.blocks[bb]['t']
+            if t[0] == 'goto':
+                bb = t[1]
+            elif t[0] == 'ret':
+                r = env.get(0)
+                return r if isinstance(r, bool) else None
+            elif t[0] == 'switch':
+                v = val(env, t[1])
+                if v is None or not (v == ('discr',) or isinstance(v, bool)):
+                    return None
+                k = discr if v == ('discr',) else int(v)
+                hit = [tgt for x, tgt in t[2] if int(x) == k]
+                bb = hit[0] if hit else t[3]
+            else:
+                return None
+        return None
+    false_for = set()
+    for v in adt['variants']:
+        r = run(int(v['discr']))
+        if r is None:
+            return None
+        if r is False:
+            false_for.add(v['name'])
+    return false_for
+
+
+UNPROTECTED_KINDS = {'Retry', 'VersionNegotiate'}
+
+
+def reach_for_packet_kind(ctx, body, header_of, protected, avoid=(), avoid_edges=()):
+    """Blocks of `body` reachable for a packet whose header (descriptor test `header_of`) is / is not one of the two kinds
+    that carry no packet protection (Retry, Version Negotiation): path partition over Header::is_protected(<header>)
+    (used only if the predicate is false for exactly those two variants) and over matches on the header itself."""
+    from rules.C04 import reach_assuming
+    F = ctx.facts
+    hdr = F.adt('packet::Header')
+    unprot = {int(v['discr']) for v in hdr['variants'] if v['name'] in UNPROTECTED_KINDS}
+    allowed = {int(v['discr']) for v in hdr['variants']} - unprot if protected else unprot
+    exact = _bool_fn_false_variants(F, ctx.pfn('Header::is_protected')) == UNPROTECTED_KINDS
+
+    def call_value(x):
+        if exact and x[0] == 'call' and x[1] == 'Header::is_protected' and len(x[3]) == 1 and header_of(x[3][0]):
+            return protected
+        return None
+
+    def discr_values(x):
+        return allowed if header_of(x) else None
+    return reach_assuming(F, body, call_value, discr_values, avoid=avoid, avoid_edges=avoid_edges)
+
+
 def every_processed_packet_is_counted(ctx, rule, instance):
     """Connection::handle_packet: every path to process_decrypted_packet passes on_packet_authenticated, except over
-    the `state.is_closed()` edge.  The count `total_authed_packets` gates Retry and Version Negotiation
-    (`> 1` = "another packet from the server was already accepted"); a packet kind that skips the count (e.g.
-    Retry, which has no packet number) leaves those gates open for a forged second Retry / late VN."""
+    the `state.is_closed()` edge and over the edge taken only by a packet WITHOUT packet protection (Retry / Version
+    Negotiation).  The count `total_authed_packets` gates Retry and Version Negotiation (`> 0` = "a packet from the
+    server was already accepted"); a protected packet kind that skips the count leaves those gates open for a forged
+    second Retry / late VN.  Conversely an unprotected packet has not been authenticated by anything when
+    handle_packet hands it on: counting it there (counter, idle timer, keep-alive) lets one spoofed datagram close
+    the gates for the genuine Retry and keep an abandoned connection alive.  Hence (ii) every counting site of
+    handle_packet lies off the unprotected edge of a dominating header-kind test, and (iii) that test is false for
+    exactly the Retry and VersionNegotiate variants.  (The Retry arm counts an ACCEPTED Retry itself, behind the
+    integrity-tag check: rule d of C04 / C14.)"""
     F = ctx.facts
     hp = ctx.pfn('Connection::handle_packet')
     pdp = hp.calls_to('Connection::process_decrypted_packet')
     opa = hp.calls_to('Connection::on_packet_authenticated')
     ctx.floor(rule, instance + '_process_sites', len(pdp), 1)
     ctx.floor(rule, instance + '_count_sites', len(opa), 1)
+
+    def guards_count(br, tgt):
+        # the test guards the counting call itself: it dominates a counting site that its skipping edge cannot reach
+        return any(hp.dominates(br.bb, c.bb) and c.bb not in hp.reachable_from(tgt, avoid=[br.bb]) for c in opa)
     closed_edges = set()
     for br, truth, tgt in bool_edges(ctx, hp, lambda d: d[0] == 'call' and d[1] == 'State::is_closed'):
         # only the is_closed() test that guards the counting call itself
-        if truth and any(hp.dominates(br.bb, c.bb) and c.bb not in hp.reachable_from(tgt, avoid=[br.bb]) for c in opa):
+        if truth and guards_count(br, tgt):
             closed_edges.add((br.bb, tgt))
     ctx.floor(rule, instance + '_closed_edges', len(closed_edges), 1)
-    avoid = [c.bb for c in opa]
+    # the header tested is the header of the very packet handed to process_decrypted_packet
+    processed = [arg_desc(F, c, 4) for c in pdp]
+    header_of = lambda d: d[0] == 'field' and d[2] == 'header' and d[1] in processed
+    fp = ctx.pfn('Header::is_protected')
+    ff = _bool_fn_false_variants(F, fp)
+    ctx.check(ff == UNPROTECTED_KINDS, rule, instance + '_unprotected_kinds', fp, fp.where(), 'Header::is_protected is false for exactly Retry and VersionNegotiate',
+              'Header::is_protected is not (recognisably) false for exactly the Retry and VersionNegotiate variants (false for %s): a protected packet kind would skip decryption and the packet count' % (sorted(ff) if ff is not None else 'an unrecognised set'))
+    reach = reach_for_packet_kind(ctx, hp, header_of, True, avoid=[c.bb for c in opa], avoid_edges=closed_edges)
     for c in pdp:
-        reach = hp.reachable_from(0, avoid=avoid, avoid_edges=closed_edges)
-        ctx.check(c.bb not in reach, rule, instance, hp, c.where(), 'on_packet_authenticated precedes process_decrypted_packet on every path of an open connection',
-                  'a packet reaches process_decrypted_packet without being counted by on_packet_authenticated (other than on the is_closed() edge)')
+        ctx.check(c.bb not in reach, rule, instance, hp, c.where(), 'on_packet_authenticated precedes process_decrypted_packet on every path of an open connection for every protected packet',
+                  'a protected packet reaches process_decrypted_packet without being counted by on_packet_authenticated (other than on the is_closed() edge)')
+    reach_u = reach_for_packet_kind(ctx, hp, header_of, False)
+    for c in opa:
+        ctx.check(c.bb not in reach_u, rule, instance + '_unprotected_not_counted_before_validation', hp, c.where(), 'the counting site is unreachable for a Retry / Version Negotiation packet',
+                  'handle_packet counts a packet as authenticated (total_authed_packets, idle timer, keep-alive) although it may be a Retry or Version Negotiation packet, which nothing has validated yet: '
+                  'one spoofed datagram then closes the `total_authed_packets` gates for the genuine Retry / Version Negotiation')
+    # an unprotected packet does reach process_decrypted_packet (otherwise the partition above is vacuous)
+    ctx.check(any(c.bb in reach_u for c in pdp), rule, instance + '_unprotected_processed', hp, hp.where(), 'Retry / Version Negotiation packets reach process_decrypted_packet uncounted', 'no path hands an unprotected packet to process_decrypted_packet: the packet-kind partition no longer describes handle_packet')
 
 
 def in_flight_removed_from_either_path(ctx, rule, instance):
@@ -161,16 +276,28 @@ def foreign_address_dropped_before_processing(ctx, rule, instance):
         # the `remote` field of the Datagram event (whole value, no projection / call on it)
         return d[0] == 'field' and d[2] == 'remote' and D.has_param(d, name='event') and not D.calls_in(d)
     ne = guard_edges(ctx, he, lambda o, a, b: o == 'Ne' and ((is_path_remote(a) and is_event_remote(b)) or (is_path_remote(b) and is_event_remote(a))))
-    ok = bool(mig) and bool(ne)
+    # Obligation, stated on paths: a datagram may enter a processing site only once `remote == path.remote` or
+    # `remote_may_migrate()` has been established for it (path.remote changes only by a migration, which needs the latter,
+    # so either fact keeps holding).  The establishing edges are the equal edge of a test of the event's remote against
+    # path.remote and the true edge of a remote_may_migrate() test; with those edges cut, no processing site may be reachable
+    # from the entry.  Consequences: the mismatch edge reaches processing only through the migration test, the
+    # `!remote_may_migrate()` edge does not reach it, and no further condition lets a datagram round the guard.  A later
+    # address comparison (e.g. the one that decides which path is credited with the received bytes) is reached only by
+    # datagrams that already passed, and constrains nothing.
+    cut = set()
+    for br, truth, tgt in ne:
+        eq_t = br.target(0 if truth else 1)
+        if eq_t is not None and eq_t != tgt:
+            cut.add((br.bb, eq_t))
     for br in mig:
         inner, neg = peel_not(br.desc)
         t_no = br.target(1 if neg else 0)        # remote_may_migrate() == false
-        if any(p in he.reachable_from(t_no, avoid=[br.bb]) for p in prot):
-            ok = False
-    for br, truth, tgt in ne:
-        # from the address-mismatch edge, processing is reachable only through the remote_may_migrate() test
-        if any(p in he.reachable_from(tgt, avoid=[m.bb for m in mig]) for p in prot):
-            ok = False
+        t_yes = br.target(0 if neg else 1)
+        if inner[0] == 'call' and inner[1] == 'ConnectionSide::remote_may_migrate' and t_yes is not None and t_yes != t_no:
+            cut.add((br.bb, t_yes))
+    reach = he.reachable_from(0, avoid_edges=cut)
+    leak = [p for p in prot if p in reach]
+    ok = bool(mig) and bool(ne) and bool(prot) and not leak
     ctx.check(ok, rule, instance, he, he.where(), 'remote != path.remote && !remote_may_migrate() -> return before handle_decode, no other way through',
               'a datagram from a foreign address can reach packet processing although migration is not permitted: the client-side panic! in process_payload becomes reachable from the network')
 
